@@ -10,7 +10,7 @@ ID = "C15"
 LEAN_MODULES = ["Econf.Props.C15", "Econf.Props.Tie"]
 THEOREMS = ["Econf.C15_options", "Econf.C15_unknown", "Econf.C15_unknown_string", "Econf.applyOption_item", "Econf.C15_join_step", "Econf.C15_join_entry", "Econf.C15_join_value", "Econf.C15_join_since_empty", "Econf.C15_join_concat", "Econf.C15_join_spec", "Econf.C15_no_join", "Econf.C15_python_continues", "Econf.C15_python_append", "Econf.Struct.tie_option_names"]
 RULE = ("join documents (repeated keys, empty definitions, multi-line definitions), python-style documents (indented continuation lines "
-        "containing delimiters and comment characters), a quarter of both kinds ending without a line break, and option strings built from the documented items in every order, repeated, "
+        "containing delimiters and comment characters), a quarter of both kinds ending without a line break, a fifth of both kinds read from the vendor layer behind a dangling link of the same name in a higher layer, and option strings built from the documented items in every order, repeated, "
         "and with unknown or misspelt names; distinct by (content or option string, sets)")
 PATH = b"/etc/app/doc.conf"
 SHRINK = False
@@ -24,6 +24,17 @@ def strip_empty_ends(lst):
     while lst and lst[-1] == b"":
         lst.pop()
     return lst
+
+
+def maybe_fallback(s, rng, content):
+    """a fifth of the documents live in the vendor layer while a higher layer holds the name as a symbolic link that leads nowhere
+    (it exists, it cannot be opened): the vendor file is the one that is read, and the options of the object apply to it"""
+    if rng.random() < 0.2:
+        assert s.lines[0].startswith("F ")
+        s.lines[0] = "F %s %s" % (h(b"/usr/etc/app/doc.conf"), h(content))
+        s.lines.insert(1, "L %s %s" % (h(rng.choice([PATH, b"/run/app/doc.conf"])), h(b"/nonexistent/gone.conf")))
+        s.meta["fallback"] = True
+    return s
 
 
 def join_make(rng, sid, hist):
@@ -66,7 +77,7 @@ def join_make(rng, sid, hist):
                       b"JOIN_SAME_ENTRIES=1;PARSING_DIRS=/usr/etc/app:/etc/app"])
     s = docs.doc_scenario(sid, content, delim, comment, {"mode": "join", "items": items, "content": content, "delim": delim, "comment": comment},
                           PATH, opt=opt)
-    return s
+    return maybe_fallback(s, rng, content)
 
 
 def join_expected(items):
@@ -130,7 +141,7 @@ def python_make(rng, sid, hist):
     content = gen_doc.render(items, final_newline=rng.random() >= 0.25)
     s = docs.doc_scenario(sid, content, delim, comment, {"mode": "python", "items": items, "content": content, "delim": delim, "comment": comment},
                           PATH, opt=rng.choice([b"PYTHON_STYLE=1", b"PYTHON_STYLE=1", b"CONFIG_DIRS=.d;PYTHON_STYLE=1", b"PYTHON_STYLE=1;CONFIG_DIRS=.d"]))
-    return s
+    return maybe_fallback(s, rng, content)
 
 
 def python_expected(items):
